@@ -1,5 +1,5 @@
 (** src/lib.rs : derive_input_handler *)
-From Educe.Model Require Export Expand_PartialEq Expand_Eq Expand_Hash Expand_Clone Expand_Copy Expand_Debug.
+From Educe.Model Require Export Expand_PartialEq Expand_Eq Expand_Hash Expand_Clone Expand_Copy Expand_Debug Expand_PartialOrd Expand_Ord.
 
 Definition tmap := list (trait * list meta).
 
@@ -44,8 +44,8 @@ Definition handlers : list (trait * handler) :=
    (TCopy, expand_copy);
    (TPartialEq, expand_partial_eq);
    (TEq, expand_eq);
-   (TPartialOrd, not_modelled "PartialOrd");
-   (TOrd, not_modelled "Ord");
+   (TPartialOrd, expand_partial_ord);
+   (TOrd, expand_ord);
    (THash, expand_hash);
    (TDefault, not_modelled "Default");
    (TDeref, not_modelled "Deref");
@@ -104,4 +104,6 @@ Definition err_name (e : err) : string :=
   | E_into_multi => "E_into_multi"
   | E_rank_reuse => "E_rank_reuse"
   | E_discriminant => "E_discriminant"
+  | E_not_integer => "E_not_integer"
+  | E_int_parse => "E_int_parse"
   end.
